@@ -178,6 +178,11 @@ impl Sim {
     }
 }
 
+/// Listener names in an order that is neither the binding order nor alphabetical.
+fn listener_name(l: usize) -> String {
+    format!("{}-l{l}", ["web", "admin", "metrics", "api"][l % 4])
+}
+
 fn epoll_readable(fd: i32) -> bool {
     let mut p = libc::pollfd { fd, events: libc::POLLIN, revents: 0 };
     // SAFETY: plain poll(2) on one valid descriptor with zero timeout.
@@ -198,6 +203,16 @@ pub fn accept_ready(sh: &Shared) -> bool {
 /// One iteration of the real accept loop. `nested` = called from inside the server's Stop handler.
 pub fn accept_step(sh: &Rc<Shared>, expire: bool, nested: bool) {
     let Some(mut acc) = sh.accept.borrow_mut().take() else { return };
+    if !expire && acc.timeout().is_none() && !epoll_readable(acc.epoll_fd()) {
+        // the real thread would sleep in poll() here: nothing is queued for it and no timeout is
+        // armed. Stepping it would block this (single) simulator thread for good.
+        sh.ctx(|ctx| {
+            ev!(ctx, "accept step skipped: the loop would sleep in poll (nested={nested})");
+            ctx.bump("accept_steps_skipped_asleep");
+        });
+        *sh.accept.borrow_mut() = Some(acc);
+        return;
+    }
     let paused_before = acc.paused();
     let timeout_before = acc.timeout();
     sh.paused_at_step_begin.set(paused_before);
@@ -860,7 +875,7 @@ async fn sim_main(sh: Rc<Shared>) -> Option<Violation> {
                 let lst = std::net::TcpListener::bind("127.0.0.1:0").expect("bind");
                 addrs.push(ListenerAddr::Tcp(lst.local_addr().unwrap()));
                 builder = builder
-                    .listen(format!("l{l}"), lst, move || HFactory::<tokio::net::TcpStream>::new(l))
+                    .listen(listener_name(l), lst, move || HFactory::<tokio::net::TcpStream>::new(l))
                     .expect("listen");
             }
             Lst::Uds => {
@@ -869,7 +884,7 @@ async fn sim_main(sh: Rc<Shared>) -> Option<Violation> {
                 let lst = std::os::unix::net::UnixListener::bind(&path).expect("bind uds");
                 addrs.push(ListenerAddr::Uds(path));
                 builder = builder
-                    .listen_uds(format!("l{l}"), lst, move || HFactory::<tokio::net::UnixStream>::new(l))
+                    .listen_uds(listener_name(l), lst, move || HFactory::<tokio::net::UnixStream>::new(l))
                     .expect("listen_uds");
             }
         }
